@@ -299,6 +299,19 @@ def literal_passthrough(ctx):
                 and t.left.args and is_name(t.left.args[0], spec) and isinstance(t.ops[0], (ast.In, ast.Is))
         ok = any(is_type_test(g.test) for g in guards)
         ctx.ob(ok, u, 'the result is rebuilt only under a type(spec) container test: %s' % norm(d), node=d)
+    # ... and always under it: no further condition decides whether a container is rebuilt (an
+    # empty or otherwise special container handed back as it is would be shared between evaluations)
+    for g in [n for n in u.own_nodes() if isinstance(n, ast.If)]:
+        mentions = any(isinstance(x, ast.Call) and is_name(x.func, 'type') and x.args and is_name(x.args[0], spec)
+                       for x in ast.walk(g.test))
+        if mentions and any(isinstance(a, ast.If) and mentions for a in [g]):
+            outer = [a for a in ancestors(g) if isinstance(a, ast.If)]
+            if outer:
+                continue        # dict-vs-list choice inside an already decided container branch
+            ok = is_type_test(g.test) or (isinstance(g.test, ast.BoolOp) and isinstance(g.test.op, ast.Or)
+                                          and all(is_type_test(v) for v in g.test.values))
+            ctx.ob(ok, u, 'every container of that type is rebuilt (the type test is the whole condition): %s' % norm(g.test),
+                   '' if ok else 'a container that fails the extra condition is returned as the spec\'s own object', node=g)
     # container types handled: dict list tuple set frozenset
     types = set()
     for n in u.own_nodes():
